@@ -10,13 +10,16 @@ import BasicModel.Model.Val
     does not fit an Integer is OVERFLOW, a string longer than 255 is STRING TOO LONG);
   * an array has declared bounds (one per dimension) and a map from index lists to values; its first
     use declares it with bound 10 in every dimension; an access needs exactly as many subscripts
-    as dimensions, each in 0..bound, anything else is SUBSCRIPT OUT OF RANGE; DIM of a declared array
-    is REDIMENSIONED ARRAY; ERASE forgets declaration and elements (ILLEGAL FUNCTION CALL when not
+    as dimensions, each in 0..bound; any other list of numbers (negative, beyond the bound, beyond
+    the Integer range, NaN, infinite, wrong count) is SUBSCRIPT OUT OF RANGE; a declared bound is an
+    Integer (0..32767); DIM of a declared array is REDIMENSIONED ARRAY; ERASE forgets declaration and elements (ILLEGAL FUNCTION CALL when not
     declared); scalars, arrays and elements are separate maps (no sharing by construction).
 
   Not specified here (the finder's scripts avoid it, see `harness/src/varlayer.rs::gen_spec_script`):
   DEFtype while an undecorated variable or element holds a value (the property does not say what
-  happens to it), names whose first character is not `A`..`Z`, `Return`/`Next` values, the pool limit.
+  happens to it), names whose first character is not `A`..`Z`, `Return`/`Next` values, the pool limit,
+  and which of TYPE MISMATCH / SUBSCRIPT OUT OF RANGE is reported when a subscript list contains both a
+  string and a number beyond the Integer range.
   Errors are bare codes; the sign of a float zero is not observed.
 -/
 namespace Basic
@@ -79,12 +82,14 @@ def subscript : Val → SRes Int
     | some z => .ok z
     | none => .error Code.subscriptOutOfRange
 
-/-- subscripts left to right: each must be a number and not negative -/
+/-- subscripts left to right: each must be a number whose value is a non-negative Integer
+    (0..32767); a number outside that can be in no array's bounds and is rejected on the spot, before
+    an undeclared array is declared by this use -/
 def subscripts : List Val → SRes (List Int)
   | [] => .ok []
   | x :: r => do
     let z ← subscript x
-    if z < 0 then .error Code.subscriptOutOfRange
+    if z < 0 ∨ z > 32767 then .error Code.subscriptOutOfRange
     else do
       let rest ← subscripts r
       .ok (z :: rest)
